@@ -20,10 +20,11 @@ Proof.
   intros S WF G. destruct (generate_exact S WF G) as [D [A [B _]]]. eauto.
 Qed.
 
-Lemma typeref_faithful_proof : forall S, wf_schema S = true -> generate_lossy S = [] ->
-  forall t, (exists d, find_type (named_of t) (s_types (with_base S)) = Some d) ->
+(* since the repair of typeref-kind-name-collision this needs no hypothesis on S at all *)
+Lemma typeref_faithful_proof : forall S t,
+  (exists d, find_type (named_of t) (s_types (with_base S)) = Some d) ->
   typeref_matches (with_base S) t (typeref (build_index S (merge_base S)) t).
-Proof. intros S WF G t R. apply (typeref_prop S G). auto. Qed.
+Proof. intros S t R. apply (typeref_prop S). auto. Qed.
 
 Lemma typeref_data_proof : forall S, wf_schema S = true -> generate_lossy S = [] ->
   exists D, generate S = Some D /\ typeref_faithful_b S D = true.
